@@ -236,7 +236,8 @@ class ExplorerScriptSsbCompiler:
         except AssertionError as e:
             raise ValueError(str(e)) from e
 
-        assert routine_op_offsets_are_ordered(compiler_visitor.routine_ops)
+        if not routine_op_offsets_are_ordered(compiler_visitor.routine_ops):
+            raise ValueError(_("The operations are not ordered. Are the routines defined in the order of their ids?"))
 
         # Copy from listener / remove labels and label jumps
         label_finalizer = LabelFinalizer(
